@@ -4,5 +4,5 @@ e=json.load(open('/verif/evidence/%s.json'%sys.argv[1]))
 c=e['coverage']
 print('wall',round(e['wall_s'],1),'load',round(c.get('load_and_ssa_build_s',0),1),'viol',e['violations'])
 for h in c['harnesses']:
-    print('%-28s paths=%-7d q=%-8d solver=%-7.1f wall=%-6.1f asserts=%d/%d %s %s'%(h['harness'],h['paths'],h['solver_queries'],h['solver_time_s'],h['wall_s_slowest_shard'],h['assertion_checks_unsat'],h['assertion_checks'],'' if h['complete'] else 'INCOMPLETE',h.get('inconclusive_paths') or ''))
+    print('%-28s paths=%-7d q=%-8d solver=%-7.1f wall=%-6.1f asserts=%d/%d %s %s'%(h['harness'],h['paths'],h['solver_queries'],h['solver_time_s'],h['cpu_wall_s_all_workers'],h['assertion_checks_unsat'],h['assertion_checks'],'' if h['complete'] else 'INCOMPLETE',h.get('inconclusive_paths') or ''))
     for k,v in (h.get('inconclusive_where') or {}).items(): print('     where:',k,'::',v[:300].replace('\n',' | '))
